@@ -601,7 +601,7 @@ class Engine(object):
                 k, fn = found
                 return self.run_generator(FuncRef(k[0], fn, owner=k), [it])
         if isinstance(it, SplitResult):
-            raise Unsupported("iteration over split() of a symbolic string")
+            return self.models.split_list(it)
         raise Unsupported("iteration over %s" % type(it).__name__)
 
     def run_generator(self, f, args):
